@@ -232,6 +232,12 @@ func CheckC07(r *core.Run) {
 		}
 	})
 	traces := histories(r, cfgs)
+	sc := c07Scenarios(r)
+	for _, t := range sc {
+		r.AddDistinct(t.Name)
+		r.AddEvals(int64(len(t.Events)))
+	}
+	traces = append(traces, sc...)
 	sampleTrace(r, traces)
 	judgeTx(r, traces, reportOpts{})
 }
